@@ -92,9 +92,8 @@ Lemma self_of_table f : In f all_formats -> f <> dddd_format ->
       parse_one now cf (render_toks l c ++ rest) = Some (denotes now l c).
 Proof.
   intros Hin Hne. pose proof (format_ok_of_table f Hin Hne) as Hok.
-  destruct (tokens terms_table f) as [l|] eqn:Ht; [|unfold format_ok in Hok; rewrite Ht in Hok; cbv beta iota in Hok; discriminate Hok].
-  destruct (compile_with terms_table f) as [cf|] eqn:Hc; [|unfold format_ok in Hok; rewrite Ht, Hc in Hok; cbv beta iota in Hok; discriminate Hok].
-  exists l, cf. repeat split. intros now c rest H1 H2. eapply format_ok_sound; eassumption.
+  destruct (format_ok_inv _ _ Hok) as (l & cf & Ht & Hc).
+  exists l, cf. split; [exact Ht|]. split; [exact Hc|]. intros now c rest H1 H2. eapply format_ok_sound; eassumption.
 Qed.
 
 Definition self_statement : Prop :=
@@ -157,7 +156,7 @@ Lemma lql_abs_refuted : ~ lql_abs_statement.
 Proof.
   intros H. destruct iso_lowercased as (_ & Hp & Hd).
   specialize (H 40%nat f_iso eq_refl w_now w_sat (civil_ok_sat _)).
-  unfold lql_list in H. rewrite <- lql_c_eq in H. rewrite Hp, Hd in H. vm_compute in H. discriminate.
+  unfold lql_list in H. rewrite <- lql_c_eq in H. rewrite Hp, Hd in H. vm_compute in H. injection H as H2. lia.
 Qed.
 
 Lemma lql_abs_partial k f : nth_error lql_formats k = Some f -> f <> dddd_format ->
